@@ -735,7 +735,7 @@ theorem astep_raw_close (htb : tb ≠ [])
     (hp : (lower ('>' :: nb).reverse).isPrefixOf (closeTagOf tn) = true)
     (hk : bytes ('>' :: tb) ≤ bytes buf + 1) :
     astep cfg ⟨.text ⟨buf, some tn, tb, nb⟩, toks⟩ '>' =
-      .ok ⟨.init, ⟨.tag, ('>' :: tb).reverse, some ('/' :: tn, [])⟩ ::
+      .ok ⟨.init, ⟨.tag, ('>' :: tb).reverse, some (((nb.reverse ++ ['>']).drop 1).dropLast, [])⟩ ::
         (if (buf.drop tb.length).isEmpty then toks else ⟨.text, (buf.drop tb.length).reverse, none⟩ :: toks)⟩ := by
   unfold closeTagOf at hp
   unfold bytes at hk
@@ -1737,7 +1737,7 @@ theorem arun_raw_keep_blanks (g buf tb nb : List Char) (htb : tb ≠ []) (hg : b
 theorem arun_raw_close_tag (name g buf tb nb : List Char) (hname : lower name = tn) (hch : name.all rawNameCh = true)
     (hg : blanks g = true) :
     arun cfg ⟨.text ⟨buf, some tn, tb, nb⟩, toks⟩ ('<' :: '/' :: (name ++ g ++ ['>'])) =
-      .ok ⟨.init, ⟨.tag, '<' :: '/' :: (name ++ g ++ ['>']), some ('/' :: tn, [])⟩ ::
+      .ok ⟨.init, ⟨.tag, '<' :: '/' :: (name ++ g ++ ['>']), some ('/' :: name, [])⟩ ::
         (if buf.isEmpty then toks else ⟨.text, buf.reverse, none⟩ :: toks)⟩ := by
   have hC : closeTagOf tn = lower ('<' :: '/' :: name) ++ ['>'] := by
     rw [← hname]; simp [closeTagOf, lower]
@@ -1764,7 +1764,9 @@ theorem arun_raw_close_tag (name g buf tb nb : List Char) (hname : lower name = 
     have : g.reverse ++ (('/' :: name).reverse ++ '<' :: buf) = (g.reverse ++ (('/' :: name).reverse ++ ['<'])) ++ buf := by simp
     rw [this, List.drop_left]
   rw [hd]
-  simp
+  have hdl : ('/' :: (name ++ ['>'])).dropLast = '/' :: name := by
+    rw [show '/' :: (name ++ ['>']) = ('/' :: name) ++ ['>'] from rfl, List.dropLast_concat]
+  simp [hdl]
 
 end RawClose
 
@@ -1862,8 +1864,9 @@ def ctxAfter (cfg : Cfg) (t : Tok) : Ctx :=
 def textOK (s : List Char) : Bool := !s.isEmpty && s.all (· != '<')
 /-- text of a raw-text element: non-empty, may contain `<` but no closing tag of the element -/
 def rawTextOK (tn s : List Char) : Bool := !s.isEmpty && !hasClose tn s
-/-- the end tag of the raw-text element `tn` is reported with the lower-cased name -/
-def closeNameOK (tn n : List Char) : Bool := n == tn && n.all rawNameCh
+/-- the end tag of the raw-text element `tn` (a lower-cased name) may be written in any letter case
+    (`lower n = tn`); it is reported with the spelling `n` as written -/
+def closeNameOK (tn n : List Char) : Bool := lower n == tn && n.all rawNameCh
 
 /-- tokens that start with `<`, in ordinary content -/
 def tokOK : Tok → Bool
@@ -2015,7 +2018,7 @@ theorem step_taglike_afterText (cfg : Cfg) (t : Tok) (hok : tokOK t = true) (lay
   rw [hp, arun_cons_ok (astep_text_lt cfg toks buf tb nb)]
   exact hrun _
 
-theorem tokOK_close_of (tn n : List Char) (h : closeNameOK tn n = true) : tokOK (.close n) = true ∧ n = tn := by
+theorem tokOK_close_of (tn n : List Char) (h : closeNameOK tn n = true) : tokOK (.close n) = true ∧ lower n = tn := by
   simp only [closeNameOK, Bool.and_eq_true, beq_iff_eq] at h
   obtain ⟨hn, hch⟩ := h
   refine ⟨?_, hn⟩
@@ -2125,7 +2128,7 @@ theorem arun_seq (cfg : Cfg) (ts : List Tok) : ∀ (ctx : Ctx) (a : AS) (pre : L
         simp only [closeNameOK, Bool.and_eq_true] at hcn
         have hrun : arun cfg ⟨.init, toks⟩ (printTok (.close n) lay) = .ok ⟨.init, emb (.close n) lay :: toks⟩ := by
           rw [printTok_close, arun_init_text cfg toks (some tn) hraw _ _ (Or.inr (by simp)),
-            arun_raw_close_tag cfg toks tn n lay.fin [] [] [] (by rw [hn]; exact hlow) hcn.2 (by
+            arun_raw_close_tag cfg toks tn n lay.fin [] [] [] hn hcn.2 (by
               simp only [layOK, Bool.and_eq_true] at hlay; exact hlay.2)]
           simp [emb, printTok_close, hn]
         obtain ⟨a', h, hst'⟩ := ih _ _ _ _ (st_after cfg _ hok lay toks) hwf' hls'
@@ -2144,7 +2147,7 @@ theorem arun_seq (cfg : Cfg) (ts : List Tok) : ∀ (ctx : Ctx) (a : AS) (pre : L
         have hrun : arun cfg ⟨.text ⟨buf, some tn, tb, nb⟩, toks⟩ (printTok (.close n) lay) =
             .ok ⟨.init, emb (.close n) lay :: ⟨.text, buf.reverse, none⟩ :: toks⟩ := by
           rw [printTok_close,
-            arun_raw_close_tag cfg toks tn n lay.fin buf tb nb (by rw [hn]; exact hlow) hcn.2 (by
+            arun_raw_close_tag cfg toks tn n lay.fin buf tb nb hn hcn.2 (by
               simp only [layOK, Bool.and_eq_true] at hlay; exact hlay.2)]
           simp [emb, printTok_close, hn, hbne]
         obtain ⟨a', h, hst'⟩ := ih _ _ _ _ (st_after cfg _ hok lay _) hwf' hls'
